@@ -41,6 +41,8 @@ structure Cfg where
   major : List Validator
   all : List Validator
   chosen : Option (List Validator) := none
+  /-- `EmptyTargetAreaValidator.ERROR`: written into every row by the empty-target-area exit -/
+  emptyAreaError : String := "EMPTY TARGET AREA"
 
 variable {G : Type}
 
@@ -91,8 +93,11 @@ def pass (O : Oracle G) (cfg : Cfg) (validators : List Validator) (frame : List 
   passRows O cfg validators frame (frame.zipIdx) glob
 
 inductive Outcome (G : Type) where
-  /-- rows returned unchanged and WITHOUT an error column (empty frame / empty area exit) -/
+  /-- rows returned unchanged and WITHOUT an error column (empty frame exit: there are no rows) -/
   | untouched
+  /-- empty-target-area exit (`allow_empty_area=False`, no trace meets the area): geometries unchanged, every row
+  carries exactly the empty-area error -/
+  | emptyArea (rows : List (G × List String))
   | validated (rows : List (G × List String))
 deriving Repr, DecidableEq
 
@@ -101,7 +106,7 @@ contributes its geometry fixes; the error column is dropped and recomputed by th
 def run (O : Oracle G) (cfg : Cfg) (allowEmptyArea areaEmpty : Bool) (frame : List G) (glob : String) :
     Outcome G × String :=
   if frame.isEmpty then (.untouched, glob)
-  else if !allowEmptyArea && areaEmpty then (.untouched, glob)
+  else if !allowEmptyArea && areaEmpty then (.emptyArea (frame.map fun g => (g, [cfg.emptyAreaError])), glob)
   else
     let (r1, g1) := pass O cfg (cfg.chosen.getD cfg.major) frame glob
     let frame2 := r1.map (·.1)
